@@ -137,12 +137,17 @@ def R_async(toks):
     return out, n
 
 def R_static(toks):
-    """`const X: &str` becomes `const X: &'static str` (the elided lifetime of a const is 'static)."""
+    """in the TYPE of a `const`/`static` item every reference gets its elided lifetime spelled: `&str` -> `&'static str`,
+    `&[&str]` -> `&'static [&'static str]` (the elided lifetime of a const is 'static)."""
     out = []; n = 0; i = 0
+    k = next((j for j, t in enumerate(toks) if t.text in ("const", "static")), None)
+    if k is None: return toks, 0
+    colon = next((j for j in range(k, len(toks)) if toks[j].text == ":"), None)
+    eq = next((j for j in range(k, len(toks)) if toks[j].text == "="), len(toks))
     while i < len(toks):
         t = toks[i]
         out.append(t)
-        if t.text == "&" and i + 1 < len(toks) and toks[i+1].text == "str" and any(x.text in ("const", "static") for x in toks[:i]):
+        if colon is not None and colon < i < eq and t.text == "&" and i + 1 < len(toks) and toks[i+1].kind != "lifetime":
             out.extend(_mk(["'static"], t, "")); toks[i+1].pre = " "; n += 1
         i += 1
     return out, n
